@@ -90,6 +90,13 @@ def check(ctx):
             if z.op in ("sqrt", "pow") and isinstance(z.args[0], Term) and z.args[0].op == "diagof":
                 g = z.args[0].args[0]
                 return g.op == "matmul" and (g.args[1] == T("T", g.args[0]) or g.args[0] == T("T", g.args[1]))
+            if z.op == "sqrt" and isinstance(z.args[0], Term):
+                # sqrt(sum(v * v)) / sqrt(v . v): the 2-norm written out
+                g = z.args[0]
+                if g.op == "sum" and isinstance(g.args[0], Term) and ((g.args[0].op == "pow" and g.args[0].args[1] == T("const", __import__("fractions").Fraction(2))) or (g.args[0].op == "mul" and g.args[0].args[0] == g.args[0].args[1])):
+                    return True
+                if g.op in ("matmul", "dot") and len(g.args) == 2 and (g.args[0] == g.args[1] or g.args[1] == T("T", g.args[0]) or g.args[0] == T("T", g.args[1])):
+                    return True
             return False
 
         root = is_norm(t) or (t.op == "comp" and is_norm(t.args[2]))
